@@ -75,6 +75,50 @@ Proof.
     rewrite IH. destruct (collect_into a2 frags vs mc fuel sub [] local); simpl; try reflexivity. apply IH.
 Qed.
 
+(* the executor functions only look at what their sub-executor returns *)
+Section SubExt.
+  Variable sch : schema.
+  Variable tyres : str -> option (pv -> tyname_res).
+  Variable s1 s2 : str -> pv -> path -> list selection -> result.
+  Hypothesis Hs : forall tn v p ss, s1 tn v p ss = s2 tn v p ss.
+
+  Lemma complete_items_ext2 (f1 f2 : path -> pv -> result) :
+    (forall p x, f1 p x = f2 p x) -> forall items p i, complete_items f1 p i items = complete_items f2 p i items.
+  Proof. intros Hf. induction items as [|x items IH]; intros p i; simpl; [reflexivity|]. rewrite Hf, IH. reflexivity. Qed.
+
+  Lemma complete_value_sub_ext nodes : forall t p v,
+    complete_value sch tyres s1 nodes t p v = complete_value sch tyres s2 nodes t p v.
+  Proof.
+    induction t as [n|t IH|t IH]; intros p v; simpl.
+    - destruct v; try reflexivity; unfold complete_named;
+        destruct (get_type sch n) as [[| | | | |]|]; try reflexivity; try apply Hs;
+        destruct (resolve_type sch tyres n _); simpl; try reflexivity; apply Hs.
+    - assert (He : forall items, complete_items (complete_value sch tyres s1 nodes t) p 0%N items =
+                                 complete_items (complete_value sch tyres s2 nodes t) p 0%N items)
+        by (intros; apply complete_items_ext2; intros; apply IH).
+      destruct v; simpl; try reflexivity; rewrite He; reflexivity.
+    - rewrite IH. reflexivity.
+  Qed.
+
+  Lemma items_partial_ext (f1 f2 : path -> pv -> result) (e1 e2 : path -> pv -> list error) :
+    (forall p x, f1 p x = f2 p x) -> (forall p x, e1 p x = e2 p x) ->
+    forall items p i, items_partial f1 e1 p i items = items_partial f2 e2 p i items.
+  Proof.
+    intros Hf He. induction items as [|x items IH]; intros p i; simpl; [reflexivity|].
+    rewrite Hf, He, IH. reflexivity.
+  Qed.
+
+  Lemma complete_value_partial_sub_ext nodes : forall t p v,
+    complete_value_partial sch tyres s1 nodes t p v = complete_value_partial sch tyres s2 nodes t p v.
+  Proof.
+    induction t as [n|t IH|t IH]; intros p v; simpl; [reflexivity| |apply IH].
+    assert (He : forall items, items_partial (complete_value sch tyres s1 nodes t) (complete_value_partial sch tyres s1 nodes t) p 0%N items =
+                               items_partial (complete_value sch tyres s2 nodes t) (complete_value_partial sch tyres s2 nodes t) p 0%N items)
+      by (intros; apply items_partial_ext; intros; [apply complete_value_sub_ext|apply IH]).
+    destruct v; simpl; try reflexivity; apply He.
+  Qed.
+End SubExt.
+
 Section Transparent.
   Variable sch : schema.
   Variable frags : frag_table.
@@ -286,6 +330,17 @@ Section Transparent.
       - apply pure_bind; [apply IH|]. intros r _. destruct (fst r); apply pure_ret.
     Qed.
 
+    Lemma complete_field_c_pure nodes t p v :
+      pure_as (complete_field_c sch tyres sub_c nodes t p v) (complete_field sch tyres sub_p nodes t p v).
+    Proof.
+      intros c Hc. destruct (complete_value_c_pure nodes t p v c Hc) as [c' [E H']].
+      unfold complete_field_c, complete_field. rewrite E.
+      destruct (complete_value sch tyres sub_p nodes t p v) as [r| |k q|k]; try (exists c'; split; [reflexivity|exact H']).
+      destruct (Nat.eqb k REJ_COERCION); exists c'; (split; [|exact H']); [|reflexivity].
+      rewrite (complete_value_partial_sub_ext sch tyres _ sub_p); [reflexivity|].
+      intros tn x q' ss. destruct (Hsub tn x q' ss c' H') as [c'' [E2 _]]. rewrite E2. reflexivity.
+    Qed.
+
     Lemma resolve_field_c_pure tname parent k fd nodes p :
       pure_as (resolve_field_c sch coerce_args world tyres argkey_eqb sub_c tname parent k fd nodes p)
               (resolve_field sch coerce_args world tyres sub_p tname parent k fd nodes p).
@@ -295,8 +350,8 @@ Section Transparent.
       destruct (coerce_args fd node) as [args| | |]; try (exists c1; split; [reflexivity|exact H1]).
       destruct k; try (exists c1; split; [reflexivity|exact H1]).
       - destruct (world p parent tname (f_name fd) args); try (exists c1; split; [reflexivity|exact H1]);
-          apply complete_value_c_pure; exact H1.
-      - apply complete_value_c_pure; exact H1.
+          apply complete_field_c_pure; exact H1.
+      - apply complete_field_c_pure; exact H1.
     Qed.
 
     Lemma exec_groups_c_pure tname parent p : forall g,
